@@ -1446,6 +1446,12 @@ func (e *Entry) Find(name string) *Entry {
 			if m != e.Node.(*Module) {
 				e = ToEntry(m)
 			}
+		} else if sub, ok := e.Node.(*Module); ok && sub.Kind() == "submodule" {
+			// Without a prefix the path names a node of the module
+			// that the submodule belongs to, as its own prefix does.
+			if m := module(sub); m != nil {
+				e = ToEntry(m)
+			}
 		}
 	}
 
